@@ -47,6 +47,11 @@ def patch_worker():
     S.__dict__["len"] = AM.sym_len
     S.__dict__["range"] = AM.sym_range
     S.__dict__["hasattr"] = AM.sym_hasattr
+    S.__dict__["reversed"] = AM.sym_reversed
+    S.__dict__["enumerate"] = AM.sym_enumerate
+    S.__dict__["zip"] = AM.sym_zip
+    S.__dict__["tuple"] = AM.sym_tuple
+    S.__dict__["list"] = AM.sym_list
     S.__dict__["any"] = sym_any
     S.__dict__["all"] = sym_all
     S.__dict__["round"] = sym_round
@@ -57,10 +62,18 @@ def patch_worker():
     S.__dict__["np"] = _MathProxy(numpy, {"arange": np_arange, "sqrt": sym.sym_sqrt})
     patch.PATCH_LOG.extend(H.stub_unit_classes([MOD]))
     patch.PATCH_LOG.append(f"{MOD}: len/range/hasattr/any/all shadowed for symbolic-length sequences")
-    for name in ("run", "_compute_powertrain_inertia", "_compute_angular_position_and_speed", "_compute_driving_torque",
-                 "_compute_load_torque", "_compute_torque", "_compute_force", "_compute_stress",
-                 "_compute_angular_acceleration", "_update_time_variables",
-                 "_compute_locked_powertrain_angular_speed_and_acceleration"):
+    import types
+    # every method of Solver that contains a loop or a comprehension (helpers a refactoring may have added included)
+    for name, fn in list(S.Solver.__dict__.items()):
+        if not isinstance(fn, types.FunctionType):
+            continue
+        import ast as _ast, inspect as _inspect, textwrap as _tw
+        try:
+            tree = _ast.parse(_tw.dedent(_inspect.getsource(fn)))
+        except (OSError, SyntaxError):
+            continue
+        if not any(isinstance(n, (_ast.For, _ast.ListComp, _ast.SetComp, _ast.GeneratorExp)) for n in _ast.walk(tree)):
+            continue
         info = loops.rewrite_method(S.Solver, name)
         patch.PATCH_LOG.append(f"{Q}.{name}: loop headers rewritten to vcloop_/vccomp_ {info['headers']}")
 
@@ -369,9 +382,21 @@ class Locked(Contract):
                                                     env.si("spd", j) == 0, env.si("acc", j) == 0), name="jl")]
 
 
+def done_todo(env, k):
+    """index ranges (processed, still to do) of a POINTWISE loop over the chain at loop position k, for either iteration
+    direction (each iteration handles one element independently of the others, so the order is free)"""
+    it = env.ghost.get("loop_iter")
+    if it is not None and it.step == -1:
+        return (k + 1, it.hi), (it.lo, k + 1)
+    lo = it.lo if it is not None else 0
+    hi = it.hi if it is not None else env.n
+    return (lo, k), (k, hi)
+
+
 @loops.loop_spec(f"{Q}._compute_locked_powertrain_angular_speed_and_acceleration#0", frame=("spd", "acc"))
 def inv_locked(env, k, entry):
-    return [L.Forall(0, k, lambda j: z3.And(is_set(env, "spd", j), is_set(env, "acc", j),
+    (a, b), _ = done_todo(env, k)
+    return [L.Forall(a, b, lambda j: z3.And(is_set(env, "spd", j), is_set(env, "acc", j),
                                             env.si("spd", j) == 0, env.si("acc", j) == 0), name="jl")]
 
 
@@ -468,7 +493,8 @@ class Net(Contract):
 
 @loops.loop_spec(f"{Q}._compute_torque#0", frame=("T",))
 def inv_net(env, k, entry):
-    return [L.Forall(0, k, lambda j: z3.And(is_set(env, "T", j),
+    (a, b), _ = done_todo(env, k)
+    return [L.Forall(a, b, lambda j: z3.And(is_set(env, "T", j),
                                             env.si("T", j) == env.si("Td", j) - env.si("Tl", j)), name="jn")]
 
 
@@ -608,11 +634,12 @@ class Force(Contract):
 def inv_force(env, k, entry):
     g = env.iface.g_force
     old = env.ghost["old"]
-    return [L.Forall(0, k, lambda j: z3.If(adv(env, "force", j),
+    (a, b), (ta, tb) = done_todo(env, k)
+    return [L.Forall(a, b, lambda j: z3.If(adv(env, "force", j),
                                            z3.And(is_set(env, "force", j),
                                                   env.si("force", j) == g(j, env.si("Td", j), env.si("Tl", j))),
                                            same_at(env, "force", j, old)), name="jf"),
-            L.Forall(k, env.n, lambda j: same_at(env, "force", j, old), name="jf2")]
+            L.Forall(ta, tb, lambda j: same_at(env, "force", j, old), name="jf2")]
 
 
 def stress_rel(env, j, old):
@@ -646,8 +673,9 @@ class Stress(Contract):
 @loops.loop_spec(f"{Q}._compute_stress#0", frame=("bend", "contact"))
 def inv_stress(env, k, entry):
     old = env.ghost["old"]
-    return [L.Forall(0, k, lambda j: stress_rel(env, j, old), name="js"),
-            L.Forall(k, env.n, lambda j: z3.And(same_at(env, "bend", j, old), same_at(env, "contact", j, old)), name="js2")]
+    (a, b), (ta, tb) = done_todo(env, k)
+    return [L.Forall(a, b, lambda j: stress_rel(env, j, old), name="js"),
+            L.Forall(ta, tb, lambda j: z3.And(same_at(env, "bend", j, old), same_at(env, "contact", j, old)), name="js2")]
 
 
 class Current(Contract):
@@ -718,9 +746,10 @@ class Record(Contract):
 @loops.loop_spec(f"{Q}._update_time_variables#0", frame=REC_FRAME)
 def inv_record(env, k, entry):
     old = env.ghost["old"]
-    return [L.Forall(0, k, lambda j: rec_rel(env, j, old), name="jr"),
-            L.Forall(k, env.n, lambda j: rec_same(env, j, old), name="jr2"),
-            rec_motor(env, old, k >= 1), k >= 0]
+    (a, b), (ta, tb) = done_todo(env, k)
+    return [L.Forall(a, b, lambda j: rec_rel(env, j, old), name="jr"),
+            L.Forall(ta, tb, lambda j: rec_same(env, j, old), name="jr2"),
+            rec_motor(env, old, z3.And(a <= 0, 0 < b)), k >= -1]
 
 
 CONTRACTS = [PosSpd(), Acc(), Locked(), Drive(), Load(), Net(), Inertia(), Integrate(), CheckLocked(), Force(), Stress(),
